@@ -261,6 +261,22 @@ CHECKS['C17'] = dict(
     assumptions=['the clock is advanced through the verif hook VerifAgeGenerations in steps that never land near the timeout boundary'],
 )
 
+CHECKS['C14'] = dict(
+    pkg='c14', level='exploration',
+    technique='property-based testing over an in-process cluster with full signer stacks: rapid-generated (n,t), conflicting duty pair, per-instance routing lists, sequential or concurrent delivery; oracle counts valid partial signatures per duty',
+    level_text=('A distributed account is generated on a 2-7 instance cluster through the real protocol (any (n,t) the tree accepts, incl. attempts at t <= n/2), optionally a common benign history is '
+                'signed, then two conflicting duties (double vote, surround either way, two blocks at one slot) are offered to the participants according to generated routing lists '
+                '(A then B everywhere, opposite orders, disjoint halves, repeats), round-robin or with one goroutine per request, by name or by share public key, via service or gRPC handler. '
+                'Every returned partial signature is verified under the share key of its instance; both duties collecting >= t valid partials is the violation; a duty with >= t partials must recover '
+                'to a signature valid under the composite key.'),
+    level_note='Trusts herumi BLS. The argument that makes the property hold (t > n/2 plus per-instance slashing protection) is not assumed by the oracle, which only counts signatures.',
+    parts=[part('TestC14', 120, 1500, qshards=2)],
+    rule=('a case is one generated account plus one routed conflicting pair; non-trivial iff the account was generated and both duties were offered to at least t instances each; distinct = sha256 of the case JSON'),
+    essential=['both-duties-offered-to-a-threshold-of-instances', 'one-duty-reached-threshold', 'concurrent-delivery', 'conflict-double-vote', 'conflict-a-surrounds-b',
+               'conflict-b-surrounds-a', 'conflict-two-blocks', 'generation-refused'],
+    assumptions=['herumi BLS is trusted'],
+)
+
 ENGINES = [
     dict(name='rapid-harness', path='/verif/harness', kind_free_text='Go test module (pgregory.net/rapid v1.3.0) compiled against /repo with -tags verif; driver /verif/check shards by seed, merges coverage, writes evidence',
          serves_properties=sorted(CHECKS)),
